@@ -409,6 +409,19 @@ def summarize(v, depth=0):
 _TMPFILES = []
 
 
+def _invoke(target, call_args):
+    call_args = dict(call_args)
+    if 'self' in call_args and ':' in target and '.' in target.split(':')[1]:
+        recv = call_args.pop('self')
+        meth = target.split(':')[1].split('.')[-1]
+        return getattr(recv, meth)(**call_args)
+    fn = _import_target(target)
+    extra = call_args.pop('__kwargs__', None)
+    if extra:
+        call_args.update(extra)
+    return fn(**call_args)
+
+
 def run_job(job):
     global RTOL
     out = {}
@@ -434,6 +447,15 @@ def run_job(job):
                 fh.write(text)
             args[n] = path
             _TMPFILES.append(path)
+    if job.get('warm') is not None and not job.get('lemma'):
+        # history variant: the function has been called before with other arguments
+        try:
+            wargs = dict(args)
+            wargs.update({n: build(d) for n, d in job['warm'].items()})
+            _invoke(job['target'], {k: v for k, v in wargs.items() if k not in job.get('ghosts', [])})
+        except Exception:
+            pass
+        del _EXT_CALLS[:]
     pre = copy.deepcopy(args)
     pre_env = dict(env)
     pre_env.update(pre)
